@@ -64,7 +64,9 @@ def C02(tr):
         r = tr.pools()
         if sorted(m.id for m in r['available']) != sorted(tr.mids) or r['idle'] or r['ingest'] or r['occupied']:
             out.append(V('C02', 'final_pools', f"at the end: available={r['available']} ingest={r['ingest']} occupied={r['occupied']} idle={r['idle']}"))
-        if tr.sim.cluster.num_provisioned_obs != 0:
+        # Cluster.num_provisioned_obs counts provisioning calls, not reservations: after a user algorithm topped a reservation up
+        # it is no longer comparable (C02 does not name that counter; the pools above are what it speaks about)
+        if tr.sim.cluster.num_provisioned_obs != 0 and not getattr(tr.sim.scheduler.algorithm, 'topups', 0):
             out.append(V('C02', 'final_reservation_count', f"reservation counter {tr.sim.cluster.num_provisioned_obs} at the end"))
     return out
 
